@@ -208,6 +208,40 @@ fn check_damaged(c: &DamagedCase, obs: &mut Obs) -> Verdict {
     Verdict::Pass
 }
 
+// ---------- sub "xlsx": damaged Questrade exports through the converter ----------
+#[derive(Clone, Debug)]
+pub struct DamagedSheet { pub export: super::c18::Export, pub edits: Vec<(usize, String, String)> }
+
+fn xlsx_strategy(_t: Tier) -> BoxedStrategy<DamagedSheet> {
+    let junk = prop_oneof![Just(""), Just("0"), Just("-0"), Just("abc"), Just("1e400"), Just("NaN"), Just("#BOOL"), Just("#ERR"), Just("999999999999.9999999999"), Just("0.0000000001"), Just("2022-13-45"), Just("USD"), Just("CAD"), Just("FXT"), Just("DIV"), Just("buy"), Just("-5"), Just("1,000.50"), Just("  ")];
+    (super::c18::export_strategy(), proptest::collection::vec((any::<u16>(), 0usize..14, junk), 0..6)).prop_map(|(export, eds)| {
+        let n = export.rows.len().max(1);
+        let edits = eds.into_iter().map(|(r, c, v)| (r as usize % n, super::c18::HEADERS[c].to_string(), v.to_string())).collect();
+        DamagedSheet { export, edits }
+    }).boxed()
+}
+
+fn check_xlsx(c: &DamagedSheet, obs: &mut Obs) -> Verdict {
+    use office::DataType;
+    crate::observe::reset_globals(crate::observe::far_today());
+    let mut e = c.export.clone();
+    for (r, col, v) in &c.edits { if let Some(a) = e.rows.get_mut(*r) { a.cells.insert(col.clone(), v.clone()); } }
+    let mut rg = e.range(&e.layout, &e.numeric_cols);
+    // typed damage: booleans and error cells
+    for (r, col, v) in &c.edits { if let Some(j) = e.layout.iter().position(|c| c.as_deref() == Some(col.as_str())) { if v == "#BOOL" { rg.set_value(((*r + 1) as u32, j as u32), DataType::Bool(true)); } if v == "#ERR" { rg.set_value(((*r + 1) as u32, j as u32), DataType::Error(office::CellErrorType::Div0)); } } }
+    let show = || format!("edits {:?}\n{}", c.edits, e.rows.iter().map(|a| super::c18::HEADERS.iter().map(|h| a.cells.get(*h).cloned().unwrap_or_default()).collect::<Vec<_>>().join(" | ")).collect::<Vec<_>>().join("\n"));
+    match guard(|| acb::peripheral::broker::questrade::sheet_to_txs(&rg, None)) {
+        Err(p) => {
+            if p.message.contains("Division by zero") && p.location.contains("rust_decimal") { return known_or_fail("F-05d", format!("panic in tx-export-convert: {}\n{}", p.sig(), show())); }
+            return panic_verdict(&p, &show());
+        }
+        Ok(Err(er)) => { if er.errors.is_empty() || er.errors.iter().any(|x| x.to_string().trim().is_empty()) { return Verdict::Fail(format!("converter failed without a message\n{}", show())); } obs.nt("rejected-with-row-diagnostics"); }
+        Ok(Ok(t)) => { if !t.is_empty() { obs.nt("converted"); } }
+    }
+    if c.edits.is_empty() { obs.class("undamaged"); }
+    Verdict::Pass
+}
+
 /// A sample through the real binary (argument layer, exit status, no 'panicked at').
 fn binary_sample(tier: Tier, seed: u64, idx: u64, of: u64, stats: &mut Stats) {
     use proptest::strategy::ValueTree;
@@ -256,6 +290,7 @@ pub fn def() -> PropDef {
     d.subs.push(Box::new(Sub::<LedgerCase> { name: "ledger", cases_quick: 6_000, cases_thorough: 300_000, strategy: Box::new(ledger_strategy_c05), to_json: LedgerCase::to_json, from_json: LedgerCase::from_json, check: check_ledger }));
     d.subs.push(Box::new(Sub::<LedgerCase> { name: "extreme", cases_quick: 6_000, cases_thorough: 300_000, strategy: Box::new(extreme_strategy), to_json: LedgerCase::to_json, from_json: LedgerCase::from_json, check: check_ledger }));
     d.subs.push(Box::new(Sub::<DamagedCase> { name: "damaged", cases_quick: 30_000, cases_thorough: 1_500_000, strategy: Box::new(damaged_strategy), to_json: DamagedCase::to_json, from_json: DamagedCase::from_json, check: check_damaged }));
+    d.subs.push(Box::new(Sub::<DamagedSheet> { name: "xlsx", cases_quick: 12_000, cases_thorough: 500_000, strategy: Box::new(xlsx_strategy), to_json: |c| { let mut j = c.export.to_json(); j["edits"] = JsonValue::Array(c.edits.iter().map(|(r, col, v)| json::object! { row: *r, col: col.as_str(), value: v.as_str() }).collect()); j }, from_json: |v| Some(DamagedSheet { export: super::c18::Export::from_json(v)?, edits: v["edits"].members().filter_map(|e| Some((e["row"].as_usize()?, e["col"].as_str()?.to_string(), e["value"].as_str()?.to_string()))).collect() }), check: check_xlsx }));
     d.extra = Some(binary_sample);
     d
 }
